@@ -53,7 +53,6 @@ LEVEL_TEXT["C19"] = ("seeded exploration of operation sequences (contiguous and 
                      "the backend calls; every answer must be one the backend alone could have given during the call")
 
 NOT_CLAIMED = {
- "C15": "check under construction (scenario S3: real FileSnapshotStore on the simulated file system)",
  "C16": "check under construction (scenario S3: real NetworkTransport on simulated streams)",
 }
 
@@ -81,3 +80,18 @@ PROFILES["C06"] = {"level": "fault_enumeration", "level_text": LEVEL_TEXT["C06"]
                            "stable-store operation) or one whole-cluster run (S1). An S2 evaluation is non-trivial when the fault-free run performed stable-store operations and at least "
                            "one vote was granted; S1 as for the other checks. Distinct = different hash of the message sequence (S2) or of the abstract-state trajectory (S1).",
                    "technique": "deterministic simulation; crash and error points enumerated over every stable-store operation of each sampled message sequence"}
+
+LEVEL_TEXT["C15"] = ("fault enumeration within sampled histories: the real FileSnapshotStore/FileSnapshotSink (fsync on) runs on an in-memory file system that journals every operation; a "
+                     "generated history (1-6 of: Create + 0-3 Writes of 0 B-300 KB + Close | Cancel | abandon with arbitrary (term, index) order, List, ReapSnapshots, byte flip in "
+                     "state.bin, truncated meta.json, unsupported version; retain 1-3) is run fault-free to count its M file-system operations, then crashed at every operation m <= M; "
+                     "every crash image the durability model allows (all metadata-journal cuts at or after the last fsync x synced / latest / half-written content of each un-synced "
+                     "file, up to 64 per crash point) is opened with a fresh store and checked; six random operations per history are also made to fail (EIO, ENOSPC, short write)")
+PROFILES["C15"] = {"level": "fault_enumeration", "level_text": LEVEL_TEXT["C15"],
+                   "scenarios": [{"scenario": "C15", "profile": "C15", "quick_runs": 3000, "quick_budget_s": 40, "thorough_runs": 400000, "thorough_budget_s": 900}],
+                   "rule": "an evaluation is one generated snapshot history with all its crash points and crash images; non-trivial when at least one sink was created and at least one "
+                           "crash image was checked; distinct = different hash of the operation history and retain count",
+                   "level_note": "durability model of the simulated file system (DESIGN.md §3.6): metadata operations persist as a prefix of one global journal that includes everything up "
+                                 "to the last fsync of any file or directory; un-synced file data may be lost wholly or partly. Weaker file systems (no ordering between metadata operations) "
+                                 "are not modelled. " + LEVEL_NOTE,
+                   "technique": "deterministic simulation of the file system with crash-point and crash-image enumeration",
+                   "components": {"real_code": ["file_snapshot.go"], "stubs": ["package os (simfs: in-memory journalling file system)"], "replaced": ["clock (synctest)"]}}
